@@ -28,6 +28,7 @@ func runC07(c *Ctx, r *Report) {
 	checkShifts(c, r, "R07.2")
 
 	c07RoundTrips(c, r)
+	c07NumericToFloatBack(c, r)
 
 	r.Rule("R07.3", "kernels match their cell: for every disposition table the kernel in cell (i,j) accepts operand kinds (i,j) — derived from the typed accesses in the kernel (kind-guard analysis)")
 	kg := runKindGuard(c, r, "R07.3", func(*DispTable) bool { return true })
